@@ -152,6 +152,68 @@ fn record(out: &mut Out, cfg: &Cfg, h: &History, j: Judged, replay_args: &[Strin
     }
 }
 
+/// The guard is dropped while the worker is stalled inside a write and the queue has room: the
+/// shutdown message is enqueued at once, and the drop waits for the worker.  The writer is
+/// released a few hundred milliseconds later (well inside the guard's patience): when the drop
+/// returns, everything accepted has been written and flushed and the writer is gone.
+/// Wall-clock use: the verdict needs the gate to have been opened within 700 ms of the drop's
+/// start (measured); a later opening (a starved harness thread) makes the probe inconclusive.
+fn stalled_drop_probe(out: &mut Out) {
+    use std::io::Write;
+    let mut script = Script::default();
+    script.stall_at.insert(0);
+    let (ctl, w) = ScriptedWriter::new(script);
+    let (mut nb, guard) = tracing_appender::non_blocking::NonBlockingBuilder::default().buffered_lines_limit(64).lossy(false).finish(w);
+    let lines: Vec<Vec<u8>> = (0..4).map(|i| format!("stalled-drop line {i}\n").into_bytes()).collect();
+    for l in &lines {
+        let _ = nb.write_all(l);
+    }
+    let t_wait = Instant::now();
+    while !ctl.is_stalled() {
+        if t_wait.elapsed() > Duration::from_secs(5) {
+            out.inconclusive("stalled-drop probe: the worker never reached the closed gate".to_string());
+            ctl.seal_open();
+            drop(guard);
+            return;
+        }
+        std::thread::yield_now();
+    }
+    let t0 = Instant::now();
+    let dropper = std::thread::spawn(move || {
+        drop(guard);
+        t0.elapsed()
+    });
+    std::thread::sleep(Duration::from_millis(300));
+    let early = dropper.is_finished();
+    let opened_after = t0.elapsed();
+    ctl.open();
+    let took = dropper.join().expect("HARNESS: dropper thread");
+    drop(nb);
+    let _ = ctl.wait_dropped(Duration::from_secs(5));
+    out.evals += 1;
+    out.count("guard_drops_while_the_worker_is_stalled_in_a_write", 1);
+    if opened_after > Duration::from_millis(700) {
+        out.inconclusive(format!("stalled-drop probe: the harness opened the gate only after {} ms", opened_after.as_millis()));
+        return;
+    }
+    let written_at_return = ctl.log().iter().filter(|c| matches!(c, Call::Write { .. })).count();
+    if !early && written_at_return < lines.len() {
+        out.violation(
+            "drop(guard) waited for the stalled worker but returned before every accepted line was written",
+            json!({"lines_accepted": lines.len(), "write_calls_seen": written_at_return, "drop_took_ms": took.as_millis() as u64}),
+        );
+        return;
+    }
+    if early {
+        let written = written_at_return;
+        out.violation(
+            "drop(guard) returned while the worker was still stalled inside a write, although the queue had room for the shutdown message and the writer was released within 300 ms: accepted lines were neither written nor flushed when the drop returned",
+            json!({"lines_accepted": lines.len(), "write_calls_seen_when_the_gate_was_opened": written, "drop_took_ms": took.as_millis() as u64,
+                   "gate_opened_after_ms": opened_after.as_millis() as u64, "queue_capacity": 64}),
+        );
+    }
+}
+
 fn child(args: &Args, kind: &str) {
     let thorough = args.tier == vlib::Tier::Thorough;
     let only = args.get("only").and_then(|s| s.parse::<u64>().ok());
@@ -166,6 +228,9 @@ fn child(args: &Args, kind: &str) {
         }
     };
     let out = Arc::new(Mutex::new(Out::new()));
+    if kind == "rand" && only.is_none() && args.shard % 4 == 0 {
+        stalled_drop_probe(&mut out.lock().unwrap());
+    }
     let current = Arc::new(Mutex::new(String::new()));
     let (tx, rx) = std::sync::mpsc::channel::<()>();
     let (seed, shard) = (args.seed, args.shard);
